@@ -404,6 +404,16 @@ impl<'a> Gen<'a> {
         if w.first() == Some(&"BMCA") {
             self.bmca_since_slave_only = true;
         }
+        // C05: after a BMCA run the Slave port is bound to the parent the run selected (parentDS.parentPortIdentity)
+        if w.first() == Some(&"BMCA") {
+            let parent = parts.iter().find(|p| p.starts_with("D ")).and_then(|p| p.split_whitespace().nth(2)).unwrap_or("");
+            let rms: Vec<&str> = parts.iter().find(|p| p.starts_with("RM ")).map(|p| p[3..].split(',').collect()).unwrap_or_default();
+            for (i, st) in after.iter().enumerate() {
+                if st == "Slave" && rms.get(i).map(|r| *r != parent).unwrap_or(false) {
+                    self.out.oracle("C05", "slave-port-not-bound-to-the-selected-parent", &format!("{line} -> port {} is Slave of {} while the run selected {parent} as parent (parentDS.parentPortIdentity): the port is not in the state the decision prescribes, it will not accept that parent's Sync", i + 1, rms[i]));
+                }
+            }
+        }
         let nslaves = after.iter().filter(|s| *s == "Slave").count();
         if nslaves > 1 {
             self.out.oracle("C08", "two-slave-ports", &format!("{line} -> states {}", after.join(",")));
@@ -1103,6 +1113,81 @@ impl<'a> Gen<'a> {
         true
     }
 
+    /// the parent hands over to another port of its own clock in the middle of an exchange: a two-step Sync (and a
+    /// delay request) of the old parent port is still open when the BMCA selects the sibling port; the sibling then
+    /// sends the Follow_Up / Delay_Resp with the same sequence ids (ports of one clock count in step). Nothing of the
+    /// old parent's open exchanges may be completed by the new one.
+    pub fn twin_handover(&mut self, rng: &Prng) -> bool {
+        let parent = self.w.parent.clone();
+        let is_parent = |m: &Master| format!("{}:{}", clock_hex(&m.clock), m.port) == parent;
+        let Some(pi) = self.w.masters.iter().position(|m| is_parent(m)) else { return false };
+        let Some(oi) = (0..self.w.masters.len()).find(|&j| j != pi && self.w.masters[j].clock == self.w.masters[pi].clock && self.w.masters[j].port != self.w.masters[pi].port) else {
+            return false;
+        };
+        let Some(k) = self.w.ports.iter().position(|p| p.state == "Slave").map(|i| i + 1) else { return false };
+        self.out.count("gen.twin-handover");
+        // an open two-step Sync of the parent
+        let seq = self.w.masters[pi].sync_seq.wrapping_add(1);
+        self.w.masters[pi].sync_seq = seq;
+        self.w.masters[oi].sync_seq = seq;
+        let old = self.w.masters[pi].clone();
+        let new = self.w.masters[oi].clone();
+        let t_recv = self.w.t(rng);
+        let t_send = t_recv.saturating_sub(rng.log_u128(50) % (SEC / 1000));
+        let (s, n, sub) = split_time(t_send);
+        let mut sync = self.base_frame(rng, 0x0, old.clock, old.port, seq).with_ts_body(0, 0);
+        sync.flags[0] = 0x02;
+        self.emit(format!("P{k} EVT {} {}", hex(&sync.bytes()), t_recv));
+        if self.dead {
+            return true;
+        }
+        // an open delay request as well (every other time)
+        let mut dreq: Option<(u16, u128)> = None;
+        if rng.chance(1, 2) {
+            self.emit(format!("P{k} TMR delay"));
+            if self.dead {
+                return true;
+            }
+            if let Some(id) = self.w.ports[k - 1].last_dreq {
+                let t_tx = self.w.t(rng);
+                self.w.ports[k - 1].pending_ctx.retain(|c| c != &format!("dreq:{id}"));
+                self.emit(format!("P{k} TXTS dreq {id} {t_tx}"));
+                dreq = Some((id, t_tx));
+            }
+        }
+        // the sibling port announces; the BMCA decides (the sibling is taken when it ranks better, e.g. by port number)
+        for _ in 0..3 {
+            if self.dead {
+                return true;
+            }
+            self.w.masters[oi].seq = self.w.masters[oi].seq.wrapping_add(1);
+            let m = self.w.masters[oi].clone();
+            let mut f = self.base_frame(rng, 0xb, m.clock, m.port, m.seq);
+            f.flags[1] = m.flags1;
+            f.set_announce(&m.ann);
+            self.emit(format!("P{k} GEN {}", hex(&f.bytes())));
+        }
+        if self.dead {
+            return true;
+        }
+        self.emit(format!("BMCA {}", (1..=self.w.ports.len()).map(|x| x.to_string()).collect::<Vec<_>>().join(",")));
+        if self.dead {
+            return true;
+        }
+        // the sibling completes what its twin began
+        let mut fu = self.base_frame(rng, 0x8, new.clock, new.port, seq).with_ts_body(s, n);
+        fu.correction = sub;
+        self.emit(format!("P{k} GEN {}", hex(&fu.bytes())));
+        if let (Some((id, t_tx)), false) = (dreq, self.dead) {
+            let t_rx = t_tx + rng.log_u128(50) % (SEC / 1000);
+            let (s2, n2, sub2) = split_time(t_rx);
+            let mut resp = self.base_frame(rng, 0x9, new.clock, new.port, id).with_ts_pid_body(s2, n2, self.w.own_clock, k as u16);
+            resp.correction = sub2;
+            self.emit(format!("P{k} GEN {}", hex(&resp.bytes())));
+        }
+        true
+    }
+
     /// a complete (possibly perturbed) Sync [+ Follow_Up] exchange and a Delay exchange on a slave port
     pub fn exchange(&mut self, rng: &Prng) {
         let slaves: Vec<usize> = self.w.ports.iter().enumerate().filter(|(_, p)| p.state == "Slave").map(|(i, _)| i + 1).collect();
@@ -1451,6 +1536,9 @@ impl<'a> Gen<'a> {
         if r == 99 && rng.chance(1, 3) {
             return self.announce_flood(rng);
         }
+        if (90..94).contains(&r) && any_slave && self.twin_handover(rng) {
+            return;
+        }
         if (94..99).contains(&r) && self.twin_burst(rng) {
             return;
         }
@@ -1771,6 +1859,19 @@ impl<'a> Gen<'a> {
                 3 => f.suffix.extend(tlv(0x4000, &[])),
                 _ => f.suffix.extend(tlv(0x0009, &[])),
             }
+        }
+        if rng.chance(1, 5) {
+            // TLVs with an odd number of value octets (not allowed: the whole suffix is refused) - one, or several
+            // whose sizes add up to an even number again; propagating, non-propagating and PATH_TRACE ones mixed
+            let n = *rng.pick(&[1usize, 2, 2, 2, 3, 4]);
+            for _ in 0..n {
+                let ty = *rng.pick(&[0x4000u16, 0x4000, 0x7fff, 0x0008, 0x0003, 0x0009, 0x2004]);
+                let len = 1 + 2 * rng.below(8) as usize;
+                let at = if rng.chance(1, 2) { f.suffix.len() } else { 0 };
+                let t = tlv(ty, &rng.bytes(len));
+                f.suffix.splice(at..at, t);
+            }
+            self.out.count("gen.parent-announce-odd-tlvs");
         }
         self.out.count("gen.parent-announce-tlvs");
         self.emit(format!("P{k} GEN {}", hex(&f.bytes())))
